@@ -688,6 +688,8 @@ class Terms:
             if elt is None:
                 continue
             conds, e, at = elt
+            if self._aliased_later(st.body, at, e):
+                continue
             body_env, body_dirty = self.before[id(at)]
             # expand the temporaries of the body, but keep the loop variables
             keep = {k: v for k, v in body_env.items() if k not in tnames and k not in pre_env}
@@ -702,6 +704,37 @@ class Terms:
                 env[acc] = comp
                 dirty.discard(acc)
                 self.raised.setdefault(id(st), {})[acc] = comp
+
+    @staticmethod
+    def _aliased_later(body, at, e):
+        """a local object that is appended and then still used in the same iteration may change after
+        the append (the list holds the object, not its value at that time): the element term would be wrong"""
+        assigned = set()
+        for s_ in body:
+            for n_ in ast.walk(s_):
+                if isinstance(n_, ast.Name) and isinstance(n_.ctx, ast.Store):
+                    assigned.add(n_.id)
+        locs = {n_.id for n_ in ast.walk(e) if isinstance(n_, ast.Name) and n_.id in assigned}
+        if not locs:
+            return False
+        seen = False
+
+        def rec(stmts):
+            nonlocal seen
+            for s_ in stmts:
+                if s_ is at:
+                    seen = True
+                    continue
+                if seen:
+                    if any(isinstance(n_, ast.Name) and n_.id in locs for n_ in ast.walk(s_)):
+                        return True
+                    continue
+                for f_ in ("body", "orelse", "finalbody"):
+                    b_ = getattr(s_, f_, None)
+                    if isinstance(b_, list) and b_ and isinstance(b_[0], ast.stmt) and rec(b_):
+                        return True
+            return False
+        return rec(body)
 
     def _raise_dict(self, st, acc, pre_env, pre_dirty, env, dirty):
         """acc = {}; for ..: acc[K] = V (nothing else but temporaries) -> acc = {K: V for ..}"""
@@ -718,6 +751,8 @@ class Terms:
             return
         cnt = sum(1 for s_ in st.body for n in ast.walk(s_) if isinstance(n, ast.Name) and n.id == acc)
         if cnt != 1:
+            return
+        if self._aliased_later(st.body, store, store.value):
             return
         tnames = {n.id for n in ast.walk(st.target) if isinstance(n, ast.Name)}
         body_env, body_dirty = self.before[id(store)]
